@@ -46,6 +46,18 @@ add("C17", "exploration",
     "Trusts the harness multimap model and its raw index-file writer (own AES-CTR/Poly1305). Homogeneous packs only.",
     "DESIGN.md section 5 C17")
 
+add("C15", "fault_enumeration",
+    "runtime monitor: online checker in the storage universe fires on any remove/overwrite of snapshot, index or pack files while random programs of public operations run on an append-only repository; refused commands must produce zero mutating events; dry-run commands must produce zero write/remove events",
+    "Held on the generated programs (3-10 operations each over all destructive and non-destructive entry points with generated options) and on the dry-run sweep over intact and damaged repositories; decided from the complete storage event log, not from return values.",
+    "Assumes every storage access goes through ReadBackend/WriteBackend (true for rustic_core); key files are not named by the statement and not judged.",
+    "DESIGN.md section 5 C15")
+
+add("C16", "exploration",
+    "runtime monitor: online hot-superset-of-cold invariant evaluated after EVERY storage event of hot+cold stores under one lock (= every prefix of the combined sequence), cold store rejecting unwarmed reads + warm-before-read log check, differential run against a single-store twin, hot-store damage + repair",
+    "Held on the generated histories and repair cases; the per-event invariant covers every interruption point of the executions observed. check --read-data on hot/cold is a listed known finding.",
+    "Trusts the harness's independent pack-trailer parser for pack types; prune internals are not compared with the twin.",
+    "DESIGN.md section 5 C16")
+
 NOT_YET = "check not built yet (work in progress in this round)"
 
 def main():
